@@ -90,15 +90,20 @@ def r2_upsert_shape(ctx, res):
                 for c in ('status_rowid', 'definition'):
                     if f'{c}=excluded.{c}' not in txt:
                         res.find(key, b.site.loc, f'SET {c} is not taken from excluded.{c}')
-        # row binding
-        want = {'id': "info['ili']", 'status_rowid': "info.get('status', 'active')", 'definition': "info.get('definition')"}
+        # row binding (name-free source descriptors of the binding machinery of C01)
+        from .c01 import computed_bindings
+        cb = computed_bindings(ctx)
+        ROW = 'each(list(expr:_ili.load(source)))'
+        want = {'id': ('INSERT ON CONFLICT', f'{ROW}.ili'),
+                'status_rowid': ('INSERT ON CONFLICT', 'ili_statuses', f"{ROW}.status?='active'"),
+                'definition': ('INSERT ON CONFLICT', f'{ROW}.definition?')}
         for sl in b.slots:
             k2 = f'ilis-bind:{sl.column}'
             if sl.column in want:
-                got = [norm(e) for e in sl.exprs]
+                got = sorted(a for a in cb.get(('ilis', sl.column), []) if a[0] == 'INSERT ON CONFLICT')
                 res.inst(k2, b.site.loc, f'{sl.column} <- {got}')
                 if got != [want[sl.column]]:
-                    res.find(k2, b.site.loc, f'ilis.{sl.column} is bound to {got}; expected {want[sl.column]}')
+                    res.find(k2, b.site.loc, f'ilis.{sl.column} is bound to {got}; expected {want[sl.column]} (the row of the index file)')
                 if sl.column == 'status_rowid' and (sl.kind != 'subselect' or sl.sub_table != 'ili_statuses'):
                     res.find(k2, b.site.loc, 'status is not resolved through the ili_statuses lookup table')
             elif sl.column == 'rowid':
@@ -114,12 +119,12 @@ def r2_upsert_shape(ctx, res):
     # statuses inserted are exactly the statuses referenced by the rows (same default)
     key = 'ili-status-default'
     res.inst(key, ai.module.loc(ai.node), "status default 'active' used for both the lookup insert and the row")
-    defaults = set()
-    for n in walk_no_nested(ai.node):
-        if isinstance(n, ast.Call) and isinstance(n.func, ast.Attribute) and n.func.attr == 'get' and n.args \
-                and isinstance(n.args[0], ast.Constant) and n.args[0].value == 'status':
-            defaults.add(norm(n.args[1]) if len(n.args) > 1 else 'None')
-    if defaults != {"'active'"}:
+    from .c01 import computed_bindings
+    cb2 = computed_bindings(ctx)
+    st_ins = {a[-1] for a in cb2.get(('ili_statuses', 'status'), []) if a[0] == 'INSERT OR IGNORE'}
+    st_row = {a[-1] for a in cb2.get(('ilis', 'status_rowid'), []) if a[0] == 'INSERT ON CONFLICT'}
+    defaults = sorted(st_ins | st_row)
+    if st_ins != st_row or len(st_ins) != 1 or not next(iter(st_ins)).endswith(".status?='active'"):
         res.find(key, ai.module.loc(ai.node), f'status defaults differ between the ili_statuses insert and the ilis rows: {sorted(defaults)}')
 
 
